@@ -26,7 +26,7 @@ META = {
                   "codecs.codec / graph.static_order (routine and graph caches)", "typelib.py.inspection.* (per-predicate caches)",
                   "Delayed*._resolved", "typelib.ctx.TypeContext.__missing__ (alias memo)", "typelib.api.encode/decode/marshal/unmarshal"],
     "bounds": {
-        "quick": "all sequences of length <= 3 over an alphabet of 25 operation instances (21 fixed, among them the same reference text issued from two modules, + 4 seed-rotated from 49), and all ordered pairs over the whole alphabet of 76 instances + 3 special steps: "
+        "quick": "all sequences of length <= 3 over an alphabet of 25 operation instances (21 fixed, among them the same reference text issued from two modules, + 4 seed-rotated from 49), and all ordered pairs over the whole alphabet of 81 instances + 3 special steps: "
                  "marshal / unmarshal / encode / decode / strload / isoformat on pools of equal-but-distinct operands (both member orders "
                  "of one union, equal instants with different offsets, 1 / 1.0 / True, the same text as str / bytes), build-routine ops, "
                  "deep-mutate the previous result, deep-mutate the previous input, clear caches",
@@ -244,6 +244,12 @@ def _ops():
         op("unmarshal(list[int],view of '[1, 2, 3]')", "text", lambda: _view(b"[1, 2, 3]"), lambda x: typelib.unmarshal(list[int], x)),
         op("unmarshal(list[int],same view, now '[7, 8, 9]')", "text", lambda: _view(b"[7, 8, 9]"), lambda x: typelib.unmarshal(list[int], x)),
         op("unmarshal(Gain,'0')", "text", lambda: "0", lambda x: typelib.unmarshal(M.Gain, x)),
+        # annotation objects built on the spot, twice each, and dropped after the call (the address of the second one is reused)
+        op("unmarshal(float|str built on the spot,'5')", "plain", lambda: "5", lambda x: (typelib.unmarshal(float | str, x), typelib.unmarshal(float | str, x))[1]),
+        op("unmarshal(int|None built on the spot,None)", "plain", lambda: None, lambda x: (typelib.unmarshal(int | None, x), typelib.unmarshal(int | None, x))[1]),
+        op("unmarshal(bytes|bool built on the spot,'abc')", "plain", lambda: "abc", lambda x: (typelib.unmarshal(bytes | bool, x), typelib.unmarshal(bytes | bool, x))[1]),
+        op("unmarshal(list[float] built on the spot,['1'])", "plain", lambda: ["1"], lambda x: (typelib.unmarshal(list[float], x), typelib.unmarshal(list[float], x))[1]),
+        op("unmarshal(dict[str,bool] built on the spot,{'a':1})", "plain", lambda: {"a": 1}, lambda x: (typelib.unmarshal(dict[str, bool], x), typelib.unmarshal(dict[str, bool], x))[1]),
     ]
     return core, pool
 
@@ -381,6 +387,50 @@ def make(first, length, seed, timeout):
     return Cond(f"seq/s{seed % 8}/{first:02d}:{nm}", [(f"c{i}", int) for i in range(length)], body, mode="E3", timeout=timeout)
 
 
+def make_fresh(timeout):
+    """Annotation objects built on the spot: equal annotations are interchangeable and a dropped annotation object
+    leaves nothing behind that a later, different annotation could pick up (its address is reused by the allocator)."""
+    import typelib
+
+    factories = [
+        ("float|str", lambda: float | str, "5"), ("int|None", lambda: int | None, None), ("bytes|bool", lambda: bytes | bool, "abc"),
+        ("list[float]", lambda: list[float], ["1"]), ("dict[str,bool]", lambda: dict[str, bool], {"a": 1}),
+        ("str|None", lambda: str | None, None), ("tuple[int,str]", lambda: tuple[int, str], ["1", 2]), ("set[str]", lambda: set[str], [1]),
+        ("Optional[bytes]", lambda: t.Optional[bytes], "x"), ("frozenset[int]", lambda: frozenset[int], ["2"]),
+    ]
+
+    def body(c0: int, c1: int, c2: int):
+        from vlib import caches
+
+        ch = Chooser((c0, c1, c2))
+        with NoTracing():
+            caches.clear_all()
+            ia, ib = ch.pick(len(factories)), ch.pick(len(factories))
+            reps = 1 + ch.pick(3)
+            reached()
+            if ia == ib:
+                return None
+            na, fa, xa = factories[ia]
+            nb, fb, xb = factories[ib]
+            keep = fb()
+            want = outcome(Op("", "", None, lambda x: typelib.unmarshaller(keep)(x)), xb)[0]
+            for _ in range(reps):
+                try:
+                    typelib.unmarshal(fa(), xa)
+                except Exception:  # noqa: BLE001, S110
+                    pass
+            got = outcome(Op("", "", None, lambda x: typelib.unmarshal(fb(), x)), xb)[0]
+            if got != want:
+                return ("history_dependent:annotation_built_on_the_spot", f"{nb} after {na}", _d(reps, got, want))
+            got2 = outcome(Op("", "", None, lambda x: typelib.marshal(x, t=fb())), xb)[0]
+            want2 = outcome(Op("", "", None, lambda x: typelib.marshaller(keep)(x)), xb)[0]
+            if got2 != want2:
+                return ("history_dependent:annotation_built_on_the_spot", f"marshal {nb} after {na}", _d(reps, got2, want2))
+        return None
+
+    return Cond("fresh/annotation_objects", [("c0", int), ("c1", int), ("c2", int)], body, mode="E3", timeout=timeout)
+
+
 def conditions(tier, seed):
     to = 40.0 if tier == "quick" else 240.0
     length = 3 if tier == "quick" else 4
@@ -394,4 +444,5 @@ def conditions(tier, seed):
     n = len(alphabet("full")) + len(SPECIAL)
     for first in range(n):
         out.append(make(first, 2, "full", to))
+    out.append(make_fresh(to))
     return out
